@@ -60,7 +60,8 @@ class DigitalWaveformSignalCollection(
                 )
             return value
         elif isinstance(index, str):  # index is the line name
-            line_names = self._owner._get_line_names()
+            # Only the first signal_count names belong to signals; NI_LineNames may list more.
+            line_names = self._owner._get_line_names()[: self._owner.signal_count]
             try:
                 column_index = line_names.index(index)
             except ValueError:
